@@ -12,8 +12,15 @@
   of the eight effect models (Model/Effects/Any.lean), clocks are `Clock` under the self-referential
   `for_each` of Model/ClockSys.lean, modulators are the `Mod` store of Model/ModulatorChunk.lean; this file
   is the glue: the `Comps` record, the `EnvOps` record in the renderer's chunk order
-  (modulators → clocks → (listeners) → mixer), sample-rate changes, builders with `Value` parameters and
+  (modulators → clocks → listeners → mixer), sample-rate changes, builders with `Value` parameters and
   the handle operations addressed by identity.
+
+  Spatial tracks: the spatial hook of the track model (`Comps.spStep / spInfo / spStart`) is instantiated with
+  the REAL spatial computation of Model/Spatial.lean (`SpatialData.chunkOut`: per-frame interpolated listener
+  pose and emitter position, distance attenuation, ear gains, clamped strength; listener looked up by id,
+  missing ⇒ silence); listeners (`ListenerSt` of Model/SpatialScene.lean) live in the environment between the
+  clocks and the mixer; `Info.listener` is the listener arena, `Info.listenerDistance` is set by the innermost
+  enclosing spatial track (its own info wins over its parent's).
 
   Panics / hangs of a component are latched in the component (`fault`) so that `Comps` stays total;
   `System.fault` finds the first latched fault after a callback.
@@ -23,6 +30,7 @@ import KiraModel.Model.StaticSound
 import KiraModel.Model.Effects.Any
 import KiraModel.Model.ClockSys
 import KiraModel.Model.ModulatorChunk
+import KiraModel.Model.SpatialScene
 
 namespace K
 
@@ -96,12 +104,51 @@ def changeRate (sr : Nat) (e : SysFx α n) : SysFx α n := { e with fx := (fxOps
 
 end SysFx
 
-/-- **The component record of the whole system**: static sounds and the eight built-in effects
-    (no spatial tracks: the spatial hook is the identity). -/
-def sysComps (fuel n : Nat) : Comps α (SysSnd α) (SysFx α n) Unit :=
+/-- the spatial data of a spatial track and the audio-thread ends of its two command slots.
+    mirrors: track/sub.rs::SpatialData (+ the `set_position` / `set_spatialization_strength` readers of its `CommandReaders`) -/
+structure SysSpatial (α : Type) where
+  sd : SpatialData α
+  cmdPos : Cmd α (Vec3 α)
+  cmdStr : Cmd α α
+
+namespace SysSpatial
+
+/-- mirrors: track/sub.rs::Track::read_commands, the `if let Some(SpatialData { .. })` block -/
+def start (p : SysSpatial α) : SysSpatial α :=
+  { sd := { p.sd with position := readCmd p.sd.position p.cmdPos, strength := readCmd p.sd.strength p.cmdStr }
+    cmdPos := none, cmdStr := none }
+
+/-- mirrors: track/sub.rs::Track::process, "get info": the track's own `SpatialTrackInfo` (position BEFORE
+    this chunk's update, its listener id) replaces whatever an enclosing spatial track supplied;
+    info.rs::Info::listener_distance is then the distance between that listener's current position and it -/
+def info (p : SysSpatial α) (parent : Info α) : Info α :=
+  { parent with
+    listenerDistance := listenerDistance (some ⟨p.sd.position.value, p.sd.listenerId⟩) (parent.listener p.sd.listenerId) }
+
+/-- mirrors: track/sub.rs::Track::process, "apply spatialization": the two parameters are updated with the
+    chunk's duration, then every frame goes through `SpatialData::spatialize` with the listener pose
+    interpolated at `i / n` (no such listener: `Frame::ZERO`) -/
+def step (p : SysSpatial α) (buf : List (Frame α)) (dtn : α) (info : Info α) : SysSpatial α × List (Frame α) :=
+  let sd' : SpatialData α :=
+    { p.sd with position := (p.sd.position.update twVec3 dtn info).1,
+                strength := (p.sd.strength.update tw32 dtn info).1 }
+  ({ p with sd := sd' }, sd'.chunkOut (info.listener p.sd.listenerId) buf.length 0 buf)
+
+/-- mirrors: track/sub/spatial_builder.rs::SpatialTrackBuilder::build (the `SpatialData` it makes) -/
+def new (listenerId : Nat) (position : Value α (Vec3 α)) (minD maxD : α) (atten : Option (Easing α))
+    (strength : Value α α) : SysSpatial α :=
+  { sd := { listenerId := listenerId, position := Parameter.new position Vec3.zero, minDistance := minD,
+            maxDistance := maxD, attenuation := atten, strength := Parameter.new strength (lit32 (0.75 : α)) }
+    cmdPos := none, cmdStr := none }
+
+end SysSpatial
+
+/-- **The component record of the whole system**: static sounds, the eight built-in effects and the real
+    spatialisation of Model/Spatial.lean. -/
+def sysComps (fuel n : Nat) : Comps α (SysSnd α) (SysFx α n) (SysSpatial α) :=
   { sndStep := SysSnd.step fuel, sndStart := SysSnd.start, sndFinished := SysSnd.finished
     fxStep := SysFx.step, fxStart := SysFx.start
-    spStep := fun p out _ _ => (p, out), spInfo := fun _ i => i }
+    spStep := SysSpatial.step, spInfo := SysSpatial.info, spStart := SysSpatial.start }
 
 /-! ### clocks and modulators: the renderer's environment -/
 
@@ -130,19 +177,20 @@ def onStart (m : SysMod α) : SysMod α :=
 
 end SysMod
 
-/-- mirrors: backend/resources.rs::Resources without the mixer: `clocks`, `modulators` (arena in `keys`
-    order + new-resource ring each); listeners are not modelled here (no spatial tracks).
-    `hung` latches a clock tick loop that did not terminate. -/
+/-- mirrors: backend/resources.rs::Resources without the mixer: `clocks`, `modulators`, `listeners` (arena in
+    `keys` order + new-resource ring each).  `hung` latches a clock tick loop that did not terminate. -/
 structure SysEnv (α : Type) where
   clocks : List (Nat × Clock α)
   newClocks : List (Nat × Clock α)
   mods : ModStore (SysMod α)
   newMods : ModStore (SysMod α)
   hung : Bool
+  listeners : List (ListenerSt α) := []
+  newListeners : List (ListenerSt α) := []
 
 namespace SysEnv
 
-def empty : SysEnv α := ⟨[], [], [], [], false⟩
+def empty : SysEnv α := ⟨[], [], [], [], false, [], []⟩
 
 /-- what `Info::new(&clocks, &modulators, &listeners, None)` answers on these arenas.
     mirrors: info.rs::Info::{clock_info, modulator_value} -/
@@ -151,8 +199,14 @@ def infoOf (clockView : Nat → Option (Clock α)) (mods : ModStore (SysMod α))
     modulator := fun id => ModStore.valueOf SysMod.ops mods id
     listenerDistance := none }
 
-/-- the `Info` sounds, effects and tracks see during the mixer pass -/
-def mixInfo (e : SysEnv α) : Info α := infoOf (fun id => e.clocks.lookup id) e.mods
+/-- mirrors: info.rs::Info::listener_info (the arena lookup `listeners.get(id)` as a `ListenerInfo`) -/
+def listenerInfo (ls : List (ListenerSt α)) (id : Nat) : Option (ListenerInfo α) :=
+  (ls.find? (fun l => l.id == id)).map ListenerSt.info
+
+/-- the `Info` sounds, effects and tracks see during the mixer pass: clocks, modulators and the listener
+    arena (no spatial track info yet: `listenerDistance := none` until a spatial track supplies it) -/
+def mixInfo (e : SysEnv α) : Info α :=
+  { infoOf (fun id => e.clocks.lookup id) e.mods with listener := listenerInfo e.listeners }
 
 /-- mirrors: backend/resources/clocks.rs::Clocks::on_start_processing, backend/resources/modulators.rs::Modulators::on_start_processing, backend/resources.rs::SelfReferentialResourceStorage::remove_and_add
     (remove the dropped ones,
@@ -163,7 +217,10 @@ def start (e : SysEnv α) : SysEnv α :=
       (fun p => (p.1, p.2.onStartProcessing))
     newClocks := []
     mods := ((e.mods.filter (fun p => !p.2.removed)) ++ e.newMods).map (fun p => (p.1, p.2.onStart))
-    newMods := [] }
+    newMods := []
+    -- backend/resources/listeners.rs::Listeners::on_start_processing, listener.rs::Listener::on_start_processing
+    listeners := ((e.listeners.filter (fun l => !l.removed)) ++ e.newListeners).map ListenerSt.readCommands
+    newListeners := [] }
 
 /-- mirrors: backend/resources/clocks.rs::Clocks::update, backend/resources.rs::SelfReferentialResourceStorage::for_each
     (after `Modulators::process`; Model/ClockSys.lean `Sys.updateClocks` with the
@@ -174,11 +231,15 @@ def updateClocks (fuel : Nat) (clocks : List (Nat × Clock α)) (mods : ModStore
 
 /-- mirrors: backend/renderer.rs::Renderer::process_chunk, backend/resources/modulators.rs::Modulators::process
     (the head of `process_chunk`: `modulators.process(dt·n, &clocks)` (clocks not yet
-    updated), then `clocks.update(dt·n, &modulators)` (modulators already updated) -/
+    updated), then `clocks.update(dt·n, &modulators)` (modulators already updated), then
+    backend/resources/listeners.rs::Listeners::update (`listeners.update(dt·n, &clocks, &modulators)`: clocks and
+    modulators of this chunk; a listener sees no spatial track, so the self-referential swap is invisible) -/
 def step (fuel : Nat) (e : SysEnv α) (dt : α) : SysEnv α :=
   let mods := (ModStore.process SysMod.ops e.mods dt (infoOf (fun id => e.clocks.lookup id) [])).1
   match updateClocks fuel e.clocks mods dt with
-  | some clocks => { e with mods := mods, clocks := clocks }
+  | some clocks =>
+    { e with mods := mods, clocks := clocks
+             listeners := e.listeners.map (fun l => l.updateWith dt (infoOf (fun id => clocks.lookup id) mods)) }
   | none => { e with mods := mods, hung := true }
 
 /-- the environment interface of the renderer model -/
@@ -356,7 +417,7 @@ def FxN.command (c : FxCmd α) : (n : Nat) → FxN α n → FxN α n
 /-- the audio side of an `AudioManager`: the renderer (mixer, clocks, modulators), and
     `RendererShared::sample_rate` (read by `add_sub_track` / `add_send_track` to `init` the effects) -/
 structure System (α : Type) (n : Nat) where
-  r : Renderer α (SysSnd α) (SysFx α n) Unit (SysEnv α)
+  r : Renderer α (SysSnd α) (SysFx α n) (SysSpatial α) (SysEnv α)
   sampleRate : Nat
   /-- loop fuel of the components (fuel-independence: C04 / C05) -/
   fuel : Nat
@@ -377,7 +438,7 @@ def SysFault.name : SysFault → String
 namespace System
 variable {n : Nat}
 
-abbrev C (s : System α n) : Comps α (SysSnd α) (SysFx α n) Unit := sysComps s.fuel n
+abbrev C (s : System α n) : Comps α (SysSnd α) (SysFx α n) (SysSpatial α) := sysComps s.fuel n
 abbrev V (s : System α n) : EnvOps α (SysEnv α) := SysEnv.envOps s.fuel
 
 /-- mirrors: manager.rs::AudioManager::new, backend/renderer.rs::Renderer::new, backend/resources/mixer.rs::Mixer::new, track/main.rs::MainTrack::init_effects
@@ -417,7 +478,7 @@ def changeRate (s : System α n) (sr : Nat) : System α n :=
            r := { s.r with dt := (1.0 : α) / (KOps.ofNat sr : α)
                            mixer := s.r.mixer.mapArenaFx (SysFx.changeRate sr) } }
 
-def withMixer (s : System α n) (f : Mixer α (SysSnd α) (SysFx α n) Unit → Mixer α (SysSnd α) (SysFx α n) Unit) :
+def withMixer (s : System α n) (f : Mixer α (SysSnd α) (SysFx α n) (SysSpatial α) → Mixer α (SysSnd α) (SysFx α n) (SysSpatial α)) :
     System α n := { s with r := { s.r with mixer := f s.r.mixer } }
 
 def withEnv (s : System α n) (f : SysEnv α → SysEnv α) : System α n := { s with r := { s.r with env := f s.r.env } }
@@ -427,11 +488,45 @@ def withEnv (s : System α n) (f : SysEnv α → SysEnv α) : System α n := { s
     sample rate in force now, push into the parent's ring -/
 def addSubTrack (s : System α n) (parent : Option Nat) (id : Nat) (volume : Value α α)
     (effects : List (SysFx α n)) (sends : List (Nat × Value α α)) (persist : Bool) : System α n :=
-  let t : Trk α (SysSnd α) (SysFx α n) Unit :=
+  let t : Trk α (SysSnd α) (SysFx α n) (SysSpatial α) :=
     Trk.buildV id volume (effects.map (SysFx.init s.sampleRate s.r.ibs)) sends persist s.r.ibs
   match parent with
   | none => s.withMixer (Mixer.hAddSubTrack t)
   | some p => s.withMixer (Mixer.mapTrack p (Trk.hAddSubTrack t))
+
+/-- mirrors: manager.rs::AudioManager::add_spatial_sub_track, track/sub/handle.rs::TrackHandle::add_spatial_sub_track, track/sub/spatial_handle.rs::SpatialTrackHandle::add_spatial_sub_track, track/sub/spatial_builder.rs::SpatialTrackBuilder::build
+    (the same as `add_sub_track` with `spatial_data: Some(..)`) -/
+def addSpatialSubTrack (s : System α n) (parent : Option Nat) (id : Nat) (sp : SysSpatial α) (volume : Value α α)
+    (effects : List (SysFx α n)) (sends : List (Nat × Value α α)) (persist : Bool) : System α n :=
+  let t : Trk α (SysSnd α) (SysFx α n) (SysSpatial α) :=
+    Trk.mapData (fun d => { d with spatial := some sp })
+      (Trk.buildV id volume (effects.map (SysFx.init s.sampleRate s.r.ibs)) sends persist s.r.ibs)
+  match parent with
+  | none => s.withMixer (Mixer.hAddSubTrack t)
+  | some p => s.withMixer (Mixer.mapTrack p (Trk.hAddSubTrack t))
+
+/-- mirrors: track/sub/spatial_handle.rs::SpatialTrackHandle::set_position (the command slot keeps the latest write) -/
+def setSpatialPosition (s : System α n) (id : Nat) (v : Value α (Vec3 α)) (tw : Tween α) : System α n :=
+  s.withMixer (Mixer.mapTrack id (Trk.mapData (fun d =>
+    { d with spatial := d.spatial.map (fun p => { p with cmdPos := some (v, tw) }) })))
+
+/-- mirrors: track/sub/spatial_handle.rs::SpatialTrackHandle::set_spatialization_strength -/
+def setSpatialStrength (s : System α n) (id : Nat) (v : Value α α) (tw : Tween α) : System α n :=
+  s.withMixer (Mixer.mapTrack id (Trk.mapData (fun d =>
+    { d with spatial := d.spatial.map (fun p => { p with cmdStr := some (v, tw) }) })))
+
+/-- mirrors: manager.rs::AudioManager::add_listener, listener.rs::Listener::new -/
+def addListener (s : System α n) (id : Nat) (position : Value α (Vec3 α)) (orientation : Value α (Quat α)) :
+    System α n :=
+  s.withEnv (fun e => { e with newListeners := e.newListeners ++
+    [{ id := id, removed := false, position := Parameter.new position Vec3.zero,
+       orientation := Parameter.new orientation Quat.identity, cmdPos := none, cmdOri := none }] })
+
+/-- a `ListenerHandle` method (listener/handle.rs: `set_position`, `set_orientation`) or its drop: `f` edits
+    the command slots / the `removed` flag of the listener, wherever it is -/
+def listenerCommand (s : System α n) (id : Nat) (f : ListenerSt α → ListenerSt α) : System α n :=
+  s.withEnv (fun e => { e with listeners := e.listeners.map (fun l => if l.id = id then f l else l),
+                               newListeners := e.newListeners.map (fun l => if l.id = id then f l else l) })
 
 /-- mirrors: manager.rs::AudioManager::add_send_track, track/send.rs::SendTrack::init_effects -/
 def addSendTrack (s : System α n) (id : Nat) (volume : Value α α) (effects : List (SysFx α n)) : System α n :=
